@@ -18,13 +18,13 @@ mkdir -p $OUT/obj
 ls test/src/run_tests.cpp test/integration/*.cpp test/unit/*.cpp | xargs -P ${JOBS:-14} -I{} sh -c 'o=$1/obj/$(echo {} | tr / _).o; g++ -std=c++17 -O1 -DBOOST_TEST_NO_MAIN=1 -I$2/include -I$2/test/include -w -c {} -o $o > $o.log 2>&1 || echo "COMPILE FAIL {}"' _ $OUT $WT > $OUT/suite.build.log 2>&1
 if grep -q "COMPILE FAIL" $OUT/suite.build.log; then res "suite_build=FAIL"; git checkout -q -- include; exit 1; fi
 g++ $OUT/obj/*.o -o $OUT/suite -pthread > $OUT/suite.link.log 2>&1 || { res "suite_link=FAIL"; git checkout -q -- include; exit 1; }
-$OUT/suite --report_level=short > $OUT/suite.log 2>&1; rc=$?
+timeout 900 $OUT/suite --report_level=short > $OUT/suite.log 2>&1; rc=$?
 if [ $rc -ne 0 ]; then
   # timing-scripted cases are load sensitive: re-run the failed cases alone
   failed=$(grep -o 'in "[^"]*"' $OUT/suite.log | sort -u | sed 's/in "//; s/"//')
   still=""
   for t in $failed; do ok=0; for k in 1 2 3; do $OUT/suite --run_test=$t > $OUT/rerun.log 2>&1 && { ok=1; break; }; done; [ $ok = 1 ] || still="$still $t"; done
-  if [ -z "$still" ]; then rc=0; res "suite_flaky_rerun_ok=$(echo $failed | tr ' ' ',')"; else res "suite_failed=$still"; fi
+  if [ -z "$failed" ]; then res "suite_died_or_hung=rc$rc"; elif [ -z "$still" ]; then rc=0; res "suite_flaky_rerun_ok=$(echo $failed | tr ' ' ',')"; else res "suite_failed=$still"; fi
 fi
 res "suite_exit=$rc"
 grep -o "[0-9]* test cases out of [0-9]* passed" $OUT/suite.log | head -1 >> $OUT/summary.txt
